@@ -77,6 +77,10 @@ class FnGen:
                     e = pt.sum(pt.stack([a, b]), axis=0) / 2
                 pool.append(e)
             outs = pool[len(vals):] or [pool[0] + 1]
+            if ret_kind == "bigtuple":
+                # more than ten outputs: "_10" sorts before "_2" as a string
+                nbig = 11 + (recipe[0][1] % 4)
+                return tuple((outs[-1] + i) * (i + 1) for i in range(nbig))
             if ret_kind == "array":
                 return outs[-1]
             if ret_kind == "tuple":
@@ -91,7 +95,7 @@ def build_case(ctx, rng, ci):
     g = FnGen(rng)
     nparams = rng.randint(1, 4)
     shape = tuple(rng.randint(1, 4) for _ in range(rng.randint(0, 2)))
-    ret_kind = rng.choice(["array", "tuple", "dict"])
+    ret_kind = rng.choice(["array", "tuple", "dict", "array", "tuple", "dict", "bigtuple"])
     body = g.make_body(nparams, [shape] * nparams, ret_kind)
     phs = {}
 
@@ -174,8 +178,8 @@ def run(ctx: common.Ctx):
     nprng = np.random.default_rng(ctx.seed + 121)
     N = 900 if ctx.thorough else 150
     cases = dis = 0
-    stats = {"array": 0, "tuple": 0, "dict": 0, "keyword_calls": 0, "nested": 0, "adversarial": 0,
-             "calls_before_inlining": 0}
+    stats = {"array": 0, "tuple": 0, "dict": 0, "bigtuple": 0, "keyword_calls": 0, "nested": 0, "adversarial": 0,
+             "calls_before_inlining": 0, "pretagged": 0}
     jobs, meta = [], []
     for ci in range(N):
         cases += 1
@@ -220,7 +224,20 @@ def run(ctx: common.Ctx):
         ncalls = count_calls(texpr)
         stats["calls_before_inlining"] += ncalls
         try:
-            inl = pt.inline_calls(pt.tag_all_calls_to_be_inlined(texpr))
+            to_tag = texpr
+            if rng.random() < 0.4:
+                # some calls carry the inline tag already (a multi-step user): tag-all must still reach what is below them
+                from pytato.function import Call
+                from pytato.tags import InlineCallTag
+                prng = random.Random(ctx.seed * 7919 + ci)
+
+                def pretag(n, prng=prng):
+                    if isinstance(n, Call) and prng.random() < 0.6 and not n.tags_of_type(InlineCallTag):
+                        return n.tagged(InlineCallTag())
+                    return n
+                to_tag = pt.transform.map_and_copy(texpr, pretag)
+                stats["pretagged"] += 1
+            inl = pt.inline_calls(pt.tag_all_calls_to_be_inlined(to_tag))
         except Exception as e:   # noqa: BLE001
             dis += 1
             ctx.violation(f"calls:inline-raises:{type(e).__name__}", f"case {ci}: inline_calls raised {type(e).__name__}: {e}",
